@@ -50,7 +50,7 @@ def _tie(t):
 def point_strategy(coord=None, allow_empty=True):
     """dict subset of x/y/z."""
     from hypothesis import strategies as st
-    c = coord or coord_strategy()
+    c = coord if coord is not None else coord_strategy()
     d = st.fixed_dictionaries({}, optional={"x": c, "y": c, "z": c})
     if not allow_empty:
         d = d.filter(lambda p: len(p) > 0)
